@@ -5,6 +5,7 @@ NAME = "sudoku"
 MODULE = "cspuz.puzzle.sudoku"
 FUNC = "solve_sudoku"
 MAX_ANSWERS = 400000
+T2_PER_FILE = 1
 TIER1 = ("Sudoku", "solve_sudoku_model")
 
 
